@@ -19,53 +19,58 @@ from ..tlaparse import parse_dump
 from . import c17, lists
 
 
+_P = {}
+
+
+def _state_fn(ctx, st, i):
+    cat, cls, stride = _P['cat'], _P['cls'], _P['stride']
+    if st['depth'] == 0:
+        return
+    if stride > 1 and i % stride and st['act']['a'] not in ('copy', 'copywith'):
+        return
+    ctx.traces += 1
+    ctx.bump(f"by_action_and_eq:{st['act']['a']}/{st['eq']}")
+    nslots = len(st['heap'])
+    w = objs.World(cat, cls)
+    w.materialise(st['pre'])
+    out = w.apply(st['act'])
+    heap, dicts = w.project(nslots, None)
+    mh, md = objs.model_view(st['heap'], st['dicts'])
+    a = st['act']
+    case = {'pre': st['pre'], 'act': a, 'model_out': st['out'], 'real_out': out,
+            'model_post': {'heap': mh, 'dicts': md, 'eq': st['eq']}, 'real_post': {'heap': heap, 'dicts': dicts}}
+    ctx.case(('c16', json.dumps(a, sort_keys=True), json.dumps(st['pre']['heap'], sort_keys=True)), st['eq'] != '-')
+    if not c17.same_outcome(out, st['out']):
+        if a['a'] == 'assign' and 'Annulus' in st['pre']['heap'][a['slot'] - 1]['cls']:
+            return      # C17's open finding (annulus assignment); not a C16 matter
+        ctx.violation(c17.act_sig('C16', st, 'outcome'), f"{c17.describe(st)}: model says {st['out']}, the package says {out}", case)
+        return
+    if heap != mh or dicts != md:
+        kind = 'sharing' if [(h.get('meta'), h.get('visual')) for h in heap] != [(h.get('meta'), h.get('visual')) for h in mh] else 'state'
+        ctx.violation(c17.act_sig('C16', st, kind), f'{c17.describe(st)}: objects afterwards differ from the model ({kind})', case)
+        return
+    real_eq = w.equality()
+    case['real_eq'] = real_eq
+    if real_eq != st['eq']:
+        ctx.violation(eq_sig(st, real_eq), f"after {c17.describe(st)}: model says slots 1,2 are {st['eq']}, == / != say {real_eq}", case)
+        return
+    if a['a'] == 'copy' and out == 'ok':
+        src, dup = w.slots[a['slot']], _copy.deepcopy(w.slots[a['slot']])
+        ok = (dup == src) and dup.meta is not src.meta and dup.visual is not src.visual and type(dup) is type(src)
+        if not ok:
+            ctx.violation(f"C16|deepcopy|{st['pre']['heap'][a['slot'] - 1]['cls']}", 'copy.deepcopy(region) is not an equal independent region', case)
+    if i % 4001 == 1:
+        ctx.sample({'pre': st['pre']['heap'], 'act': a, 'out': out, 'eq': st['eq']})
+
+
 def replay(ctx, res, cat, cls, stride):
-    n = 0
-    kinds = {}
-    for i, st in enumerate(parse_dump(res.dump_path)):
-        if st['depth'] == 0:
-            continue
-        if stride > 1 and i % stride and st['act']['a'] not in ('copy', 'copywith'):
-            continue
-        n += 1
-        kinds[(st['act']['a'], st['eq'])] = kinds.get((st['act']['a'], st['eq']), 0) + 1
-        nslots = len(st['heap'])
-        w = objs.World(cat, cls)
-        w.materialise(st['pre'])
-        out = w.apply(st['act'])
-        heap, dicts = w.project(nslots, None)
-        mh, md = objs.model_view(st['heap'], st['dicts'])
-        a = st['act']
-        case = {'pre': st['pre'], 'act': a, 'model_out': st['out'], 'real_out': out,
-                'model_post': {'heap': mh, 'dicts': md, 'eq': st['eq']}, 'real_post': {'heap': heap, 'dicts': dicts}}
-        ctx.case(('c16', json.dumps(a, sort_keys=True), json.dumps(st['pre']['heap'], sort_keys=True)), st['eq'] != '-')
-        if not c17.same_outcome(out, st['out']):
-            if a['a'] == 'assign' and 'Annulus' in st['pre']['heap'][a['slot'] - 1]['cls']:
-                continue      # C17's open finding (annulus assignment); not a C16 matter
-            ctx.violation(c17.act_sig('C16', st, 'outcome'), f"{c17.describe(st)}: model says {st['out']}, the package says {out}", case)
-            continue
-        if heap != mh or dicts != md:
-            shared = [d for d in (heap, mh)]
-            kind = 'sharing' if [(h.get('meta'), h.get('visual')) for h in heap] != [(h.get('meta'), h.get('visual')) for h in mh] else 'state'
-            ctx.violation(c17.act_sig('C16', st, kind), f'{c17.describe(st)}: objects afterwards differ from the model ({kind})', case)
-            continue
-        real_eq = w.equality()
-        case['real_eq'] = real_eq
-        if real_eq != st['eq']:
-            ctx.violation(eq_sig(st, real_eq), f"after {c17.describe(st)}: model says slots 1,2 are {st['eq']}, == / != say {real_eq}", case)
-            continue
-        if a['a'] == 'copy' and out == 'ok':
-            src, dup = w.slots[a['slot']], _copy.deepcopy(w.slots[a['slot']])
-            ok = (dup == src) and dup.meta is not src.meta and dup.visual is not src.visual and type(dup) is type(src)
-            if not ok:
-                ctx.violation(f"C16|deepcopy|{st['pre']['heap'][a['slot'] - 1]['cls']}", 'copy.deepcopy(region) is not an equal independent region', case)
-        if n % 4001 == 1:
-            ctx.sample({'pre': st['pre']['heap'], 'act': a, 'out': out, 'eq': st['eq']})
-    ctx.traces += n
-    ctx.note('replayed_states', n)
-    ctx.note('by_action_and_eq', {f'{k[0]}/{k[1]}': v for k, v in sorted(kinds.items())})
+    from .. import par
+    _P.update(cat=cat, cls=cls, stride=stride)
+    before = ctx.traces
+    par.pmap_dump(ctx, _state_fn, res.dump_path)
+    ctx.note('replayed_states', ctx.traces - before)
     for need in (('copy', 'eq'), ('copywith', 'ne'), ('copywith', 'eq'), ('assign', 'ne'), ('meta', 'ne')):
-        if kinds.get(need, 0) == 0:
+        if ctx.notes.get(f'by_action_and_eq:{need[0]}/{need[1]}', 0) == 0:
             raise tlc.TlcError(f'vacuous: no state with action {need[0]} and eq={need[1]}')
 
 
@@ -89,7 +94,7 @@ def run(ctx):
     if res.violated:
         ctx.violation(f'C16|model|{res.violated}', f'Objects.tla: invariant {res.violated} fails in the model', {'trace': res.trace[-2:]})
     else:
-        replay(ctx, res, cat, cls, 2 if quick else 1)
+        replay(ctx, res, cat, cls, 1)
     tlc.cleanup(res.workdir)
     # every class: construct, copy, compare (depth 2) and class-differing pairs
     res = tlc.run('MC_Objects', cfg_text=c17.cfg('ClsQuick' if quick else 'ClsAll', 'ActsCopyOnly', 2, 2, invs=invs), dump=True, tag='c16')
